@@ -11,7 +11,7 @@ SPEC = {
              '(ordered surviving rules per language, families); return values and matching lines are judged against the model during the '
              'history, and after every history the calculator and a fresh one on which only the surviving registrations are replayed in '
              'order must agree on a probe battery (rule-matching lines, near misses, family conversions, corpus lines), with the '
-             'configuration fingerprint (hook H3) compared as a lead. non-trivial = a judged call; distinct = distinct (history prefix, call)'),
+             'configuration fingerprint (hook H3) compared as a lead; one rule fired up to 40 times on a line; family amounts 0 and amounts held by a name. non-trivial = a judged call; distinct = distinct (history prefix, call)'),
     'min_nontrivial': 1500,
     'budget_s': {'quick': 45, 'thorough': 420},
     'assumptions': ['single-token patterns whose result matches the pattern again are not generated', 'family amounts are integers divisible by the chain factors '
